@@ -483,7 +483,9 @@ Record tables_good : Prop := {
   tg_cols_nolot : NoDup (map fst (tt_cols_always T ++ tt_cols_nolot T));
   tg_targets : forall ty n, type_to_sheet T ty = Some n -> In n (data_sheet_names T);
   tg_fun_keys : NoDup (map fst (tt_sheet_to_types T));
-  tg_fun : forall ty, (length (filter (fun st => ttype_in ty (snd st)) (tt_sheet_to_types T)) <= 1)%nat }.
+  tg_fun : forall ty, (length (filter (fun st => ttype_in ty (snd st)) (tt_sheet_to_types T)) <= 1)%nat;
+  tg_col_range : forall cf, In cf (tt_cols_always T ++ tt_cols_lot T ++ tt_cols_nolot T) -> 0 <= fst cf < 1024;
+  tg_legend_row : tt_legend_method_row T <> None }.
 
 Lemma tables_ok_good : tables_ok T = true -> tables_good.
 Proof.
@@ -496,6 +498,8 @@ Proof.
   apply andb_true_iff in Hnames. destruct Hnames as [Hnames Hleg].
   apply andb_true_iff in Hnames. destruct Hnames as [Hnd1 Hnd2].
   unfold layout_ok in Hlayout.
+  apply andb_true_iff in Hlayout. destruct Hlayout as [Hlayout Hlegrow].
+  apply andb_true_iff in Hlayout. destruct Hlayout as [Hlayout Hcolr].
   apply andb_true_iff in Hlayout. destruct Hlayout as [Hlayout Hmark].
   apply andb_true_iff in Hlayout. destruct Hlayout as [Hlayout Hstep].
   apply andb_true_iff in Hlayout. destruct Hlayout as [Hlayout Hfirst].
@@ -529,6 +533,8 @@ Proof.
   - apply str_nodup_NoDup. exact Hf2.
   - intro ty. rewrite forallb_forall in Hf1. assert (Hin : In ty all_ttypes) by (destruct ty; cbn; tauto).
     specialize (Hf1 ty Hin). apply Nat.leb_le. exact Hf1.
+  - intros cf Hcf. rewrite forallb_forall in Hcolr. specialize (Hcolr cf Hcf). apply andb_true_iff in Hcolr. lia.
+  - destruct (tt_legend_method_row T); [discriminate | discriminate].
 Qed.
 
 Lemma init_rows_get n : In n (tt_sheet_names T) -> sget n (init_rows T) = Some (tt_first_row T).
@@ -585,3 +591,170 @@ Proof.
 Qed.
 
 End Whole.
+
+(** ---------- from fractions to rows *)
+Section Fractions.
+Variable T : trtables.
+
+(** all row sources of the report: per asset (sorted order) the fractions of the window, in the set's order *)
+Definition all_sources (i : rinput) (acs : list (rasset * computed)) : list rowsrc := flat_map (asset_sources i) acs.
+
+Lemma sources_gls : forall gls k asset period evf lotf, map rs_gl (sources_from k asset period evf lotf gls) = gls.
+Proof. induction gls as [|g gls IH]; intros; cbn [sources_from map rs_gl]; [reflexivity|]. rewrite IH. reflexivity. Qed.
+
+(** every fraction of the window of every asset is a row source, once, in order *)
+Lemma all_sources_gls i acs : map rs_gl (all_sources i acs) = flat_map (fun ac => cd_gls (snd ac)) acs.
+Proof.
+  induction acs as [|ac acs IH]; cbn [all_sources flat_map]; [reflexivity|].
+  rewrite map_app. unfold asset_sources at 1. rewrite sources_gls. f_equal. exact IH.
+Qed.
+
+Lemma mk_items_Forall2 : forall l items, mk_items T l = Ok items -> Forall2 (fun s it => mk_item T s = Ok it) l items.
+Proof.
+  induction l as [|s l IH]; intros items H; cbn [mk_items] in H.
+  - inversion H. constructor.
+  - destruct (mk_item T s) as [x|] eqn:E; [|discriminate].
+    destruct (mk_items T l) as [r|]; [|discriminate]. inversion H. constructor; [exact E | apply IH; reflexivity].
+Qed.
+
+Lemma all_items_Forall2 i : forall acs items, all_items T i acs = Ok items ->
+  Forall2 (fun s it => mk_item T s = Ok it) (all_sources i acs) items.
+Proof.
+  induction acs as [|ac acs IH]; intros items H; cbn [all_items] in H.
+  - inversion H. constructor.
+  - destruct (mk_items T (asset_sources i ac)) as [a|] eqn:E; [|discriminate].
+    destruct (all_items T i acs) as [b|]; [|discriminate]. inversion H.
+    cbn [all_sources flat_map]. apply Forall2_app; [apply mk_items_Forall2; exact E | apply IH; reflexivity].
+Qed.
+
+Lemma Forall2_nth {A B} (R : A -> B -> Prop) : forall l l' k x, Forall2 R l l' -> nth_error l k = Some x ->
+  exists y, nth_error l' k = Some y /\ R x y.
+Proof.
+  intros l l' k x F. revert k x. induction F as [|a b l l' Hab F IH]; intros [|k] x H; cbn in H; try discriminate.
+  - inversion H; subst. exists b. split; [reflexivity | exact Hab].
+  - apply IH. exact H.
+Qed.
+
+Lemma cells_of_spec f s : forall cols cs, cells_of f s cols = Ok cs ->
+  map fst cs = map fst cols /\ forall c fld, In (c, fld) cols -> exists v, field_val f s fld = Ok v /\ In (c, v) cs.
+Proof.
+  induction cols as [|[c0 fld0] cols IH]; intros cs H; cbn [cells_of] in H.
+  - inversion H. split; [reflexivity | intros c fld []].
+  - destruct (field_val f s fld0) as [v0|] eqn:E.
+    + destruct (cells_of f s cols) as [r|]; [|discriminate]. inversion H. destruct (IH r eq_refl) as [I1 I2]. split.
+      * cbn [map fst]. rewrite I1. reflexivity.
+      * intros c fld [Hi|Hi].
+        -- inversion Hi; subst. exists v0. split; [exact E | left; reflexivity].
+        -- destruct (I2 c fld Hi) as [v [V1 V2]]. exists v. split; [exact V1 | right; exact V2].
+    + destruct (cells_of f s cols); discriminate.
+Qed.
+
+Lemma row_cols_incl s cf : In cf (row_cols T s) -> In cf (tt_cols_always T ++ tt_cols_lot T ++ tt_cols_nolot T).
+Proof.
+  unfold row_cols. intro H. apply in_app_or in H. apply in_or_app. destruct H as [H|H]; [left; exact H|]. right.
+  apply in_or_app. destruct (g_lot (rs_gl s)); [left|right]; exact H.
+Qed.
+
+Lemma mk_item_spec s it : tables_good T -> mk_item T s = Ok it ->
+  it_type it = t_type (g_ev (rs_gl s)) /\ item_wf it
+  /\ forall c fld, In (c, fld) (row_cols T s) -> exists v, field_val (tt_datefmt T) s fld = Ok v /\ In (c, v) (it_cells it).
+Proof.
+  intros G H. unfold mk_item in H. destruct (cells_of (tt_datefmt T) s (row_cols T s)) as [cs|] eqn:E; [|discriminate].
+  inversion H; subst it. cbn [it_type it_cells]. destruct (cells_of_spec _ _ _ _ E) as [C1 C2].
+  split; [reflexivity|]. split; [|exact C2]. unfold item_wf. cbn [it_cells]. split.
+  - rewrite C1. unfold row_cols. destruct (g_lot (rs_gl s)); [exact (tg_cols_lot T G) | exact (tg_cols_nolot T G)].
+  - apply Forall_forall. intros [c v] Hcv.
+    assert (Hc : In c (map fst (row_cols T s))) by (rewrite <- C1; apply in_map_iff; exists (c, v); split; [reflexivity | exact Hcv]).
+    apply in_map_iff in Hc. destruct Hc as [[c' fld] [E1 Hc]]. cbn [fst] in E1. subst c'. cbn [fst].
+    exact (tg_col_range T G (c, fld) (row_cols_incl s _ Hc)).
+Qed.
+
+Lemma place_all_routed : forall l st st', place_all T st l = Ok st' ->
+  Forall (fun it => type_to_sheet T (it_type it) <> None) l.
+Proof.
+  induction l as [|it l IH]; intros st st' H; cbn [place_all] in H; [constructor|].
+  destruct (place T st it) as [st1|] eqn:EP; [|discriminate].
+  destruct (place_inv T _ _ _ EP) as [n [_ [_ [Hn _]]]]. constructor; [congruence | exact (IH _ _ H)].
+Qed.
+
+Lemma gen_assets_routed i : forall acs st st' items, gen_assets T i st acs = Ok st' -> all_items T i acs = Ok items ->
+  Forall (fun it => type_to_sheet T (it_type it) <> None) items.
+Proof.
+  induction acs as [|ac acs IH]; intros st st' items H HI; cbn [gen_assets all_items] in *.
+  - inversion HI. constructor.
+  - destruct (gen_asset T i st ac) as [st1|] eqn:EA; [|discriminate]. unfold gen_asset in EA.
+    destruct (size_sheets T (type_count i (snd ac)) (ts_sheets st)) as [sized|]; [|discriminate].
+    destruct (mk_items T (asset_sources i ac)) as [a|]; [|discriminate].
+    destruct (all_items T i acs) as [b|] eqn:EB; [|discriminate]. inversion HI. apply Forall_app. split.
+    + exact (place_all_routed _ _ _ EA).
+    + exact (IH _ _ _ H eq_refl).
+Qed.
+
+(** Headline: the k-th fraction of the report (assets in sorted order, each asset's fractions of the
+    window in order) is on the sheet of its type, at row
+      first data row + number of earlier fractions (of all earlier assets and this one) routed to that sheet,
+    and at the end every cell of that row holds the value computed for this fraction: no later
+    fraction and no template cell overwrites it. *)
+Theorem fraction_cells i out acs k src : tables_good T -> tax_report T i = Ok out ->
+  computed_all i (rp_assets i) = Ok acs -> nth_error (all_sources i acs) k = Some src ->
+  exists items n s,
+    all_items T i acs = Ok items
+    /\ type_to_sheet T (t_type (g_ev (rs_gl src))) = Some n
+    /\ In s out /\ sw_name s = n
+    /\ forall c fld, In (c, fld) (row_cols T src) ->
+         exists v, field_val (tt_datefmt T) src fld = Ok v
+                   /\ cell_at (sw_writes s) (tt_first_row T + nrouted T n (firstn k items)) c = v.
+Proof.
+  intros G H HC Hk.
+  destruct (tax_report_spec T i out G H) as [acs' [items [HC' [HI [Hnames Hdata]]]]].
+  rewrite HC in HC'. inversion HC'; subst acs'. clear HC'.
+  destruct (Forall2_nth _ _ _ _ _ (all_items_Forall2 i acs items HI) Hk) as [it [Hit Hmk]].
+  destruct (mk_item_spec src it G Hmk) as [Hty [_ Hcells]].
+  (* the item is routed somewhere, because the report was produced *)
+  assert (Hrouted : Forall (fun it => type_to_sheet T (it_type it) <> None) items).
+  { unfold tax_report in H. rewrite HC in H.
+    destruct (init_sheets T i) as [sheets|]; [|discriminate].
+    destruct (gen_assets T i {| ts_rows := init_rows T; ts_sheets := sheets |} acs) as [st|] eqn:EG; [|discriminate].
+    exact (gen_assets_routed i acs _ _ items EG HI). }
+  assert (Hn : type_to_sheet T (it_type it) <> None) by (rewrite Forall_forall in Hrouted; apply Hrouted; eapply nth_error_In; exact Hit).
+  destruct (type_to_sheet T (it_type it)) as [n|] eqn:En; [|congruence]. clear Hn.
+  assert (Hr : routed T n it = true) by (unfold routed; rewrite En; apply str_eqb_refl).
+  assert (Hdn : In n (data_sheet_names T)) by exact (tg_targets T G _ _ En).
+  assert (Hnl : str_eqb n s_Legend = false).
+  { unfold data_sheet_names in Hdn. apply in_map_iff in Hdn. destruct Hdn as [s0 [E0 H0]]. unfold data_sheets0 in H0.
+    apply filter_In in H0. destruct H0 as [_ H0]. unfold is_legend in H0. rewrite E0 in H0. apply negb_true_iff in H0. exact H0. }
+  assert (Hpos : nrouted T n items <> 0).
+  { pose proof (nrouted_firstn_lt T n items k (S k) it (Nat.lt_succ_diag_r k) Hit Hr) as L.
+    pose proof (nrouted_firstn_mono T n items (S k) (length items)) as M. rewrite firstn_all in M.
+    assert (Hlen : (S k <= length items)%nat) by (apply Nat.le_succ_l; apply nth_error_Some; congruence).
+    specialize (M Hlen). pose proof (nrouted_nonneg T n (firstn k items)). lia. }
+  assert (Hin : In n (map sw_name out)).
+  { rewrite Hnames. apply filter_In. split.
+    - unfold data_sheet_names, data_sheets0 in Hdn. apply in_map_iff in Hdn. destruct Hdn as [s0 [E0 H0]]. apply filter_In in H0.
+      apply in_map_iff. exists s0. tauto.
+    - rewrite Hnl. cbn [orb]. apply negb_true_iff. apply Z.eqb_neq. exact Hpos. }
+  apply in_map_iff in Hin. destruct Hin as [s [Es Hs]].
+  assert (Hsl : is_legend s = false) by (unfold is_legend; rewrite Es; exact Hnl).
+  destruct (Hdata s Hs Hsl) as [s0 [Hs0 [N0 [C0 W0]]]].
+  exists items, n, s. split; [exact HI|]. split; [rewrite <- Hty; exact En|]. split; [exact Hs|]. split; [exact Es|].
+  intros c fld Hc. destruct (Hcells c fld Hc) as [v [V1 V2]]. exists v. split; [exact V1|].
+  rewrite W0, Es.
+  assert (Hwf : Forall item_wf items).
+  { apply Forall_forall. intros it' Hit'. apply In_nth_error in Hit'. destruct Hit' as [j Hj].
+    pose proof (all_items_Forall2 i acs items HI) as F2.
+    assert (exists s', nth_error (all_sources i acs) j = Some s' /\ mk_item T s' = Ok it') as [s' [_ Hs']].
+    { clear -F2 Hj. revert j Hj. induction F2 as [|a b l l' Hab F IH]; intros [|j] Hj; cbn in Hj; try discriminate.
+      - inversion Hj; subst. exists a. split; [reflexivity | exact Hab].
+      - destruct (IH j Hj) as [s' [S1 S2]]. exists s'. split; [exact S1 | exact S2]. }
+    exact (proj1 (proj2 (mk_item_spec s' it' G Hs'))). }
+  pose proof (cell_at_spec T n (sw_writes s0) (tt_first_row T) items k it c v) as CA.
+  unfold row_of in CA. rewrite (tg_step T G) in CA. rewrite Z.mul_1_l in CA. apply CA.
+  - lia.
+  - intros w Hw. destruct (tg_sheet T G s0 Hs0) as [S1 [_ [S3 _]]]. specialize (S3 w Hw). lia.
+  - exact Hwf.
+  - exact Hit.
+  - exact Hr.
+  - exact V2.
+Qed.
+
+End Fractions.
